@@ -52,12 +52,12 @@ theorem fieldsCells_append (s : AssetSpec) (xs ys : List Nat) :
 
 /-- **Reader correctness for one record.** -/
 theorem fromStream_layout (s : AssetSpec) (hwf : SpecWF s) (b : BinArchive) (he : b.endian = .little)
-    (p : Nat) (hc : cellsAt b p (recordCells s)) :
+    (hsmall : b.size < 2 ^ 64) (p : Nat) (hc : cellsAt b p (recordCells s)) :
     fromStream b ⟨p⟩ = .ok (normalize s, ⟨p + 4 * (recordCells s).length⟩) := by
   unfold recordCells at hc
   rw [cellsAt_append, cellsAt_append, cellsAt_append] at hc
   obtain ⟨⟨⟨hflagsC, hnameC⟩, hf1⟩, hf2⟩ := hc
-  obtain ⟨raw, more, hu8, hbytes, hflags, hlong⟩ := read_flags s b p hflagsC
+  obtain ⟨raw, more, hu8, hbytes, hflags, hlong⟩ := read_flags s b hsmall p hflagsC
   have hfl : (flagCells s).length * 4 = (finalFlags s).length := by
     rw [finalFlags_length]; unfold flagCells; by_cases hl : isLong s <;> simp [hl]
   have hnameC' : cellAt b (p + (finalFlags s).length) (.str s.name) := by
@@ -89,7 +89,7 @@ theorem fromStream_layout (s : AssetSpec) (hwf : SpecWF s) (b : BinArchive) (he 
     rw [if_pos hgt]
     rw [readStrs_layout s b [32, 33] _ (fun i hi => by simp at hi; omega) hf2.1]
     simp only
-    rw [readVals_layout s hwf b he (List.range' 34 18) _
+    rw [readVals_layout s hwf b he hsmall (List.range' 34 18) _
       (fun i hi => by have := List.mem_range'_1.1 hi; omega) hf2.2]
     simp only [Res.ok.injEq, Prod.mk.injEq]
     refine ⟨?_, ?_⟩
@@ -141,6 +141,7 @@ def fileCells (b : AssetBinary) : List Cell :=
 structure Layout (v : AssetBinary) (b : BinArchive) : Prop where
   little : b.endian = .little
   size : b.size = 4 * (fileCells v).length
+  small : b.size < 2 ^ 64
   cells : cellsAt b 0 (fileCells v)
 
 theorem recordCells_length_pos (s : AssetSpec) : 2 ≤ (recordCells s).length := by
@@ -148,7 +149,7 @@ theorem recordCells_length_pos (s : AssetSpec) : 2 ≤ (recordCells s).length :=
   by_cases hl : isLong s <;> simp [hl] <;> omega
 
 /-- The four zero bytes at the end are not a record: its name cell falls outside the data. -/
-theorem fromStream_terminator (b : BinArchive) (p : Nat) (hc : cellAt b p (.raw zero4))
+theorem fromStream_terminator (b : BinArchive) (hsmall : b.size < 2 ^ 64) (p : Nat) (hc : cellAt b p (.raw zero4))
     (hs : b.size = p + 4) : ∃ e, fromStream b ⟨p⟩ = .err e := by
   obtain ⟨hfit, hsl, _⟩ := hc
   have hp : p < b.data.length := by unfold size at hfit; omega
@@ -160,12 +161,12 @@ theorem fromStream_terminator (b : BinArchive) (p : Nat) (hc : cellAt b p (.raw 
   unfold fromStream
   rw [readU8_at (by unfold size; exact hp), h0]
   simp only [Nat.zero_and, Nat.zero_ne_one, if_false]
-  rw [readBytes_slice b 3 (p + 1) (by omega)]
+  rw [readBytes_slice b hsmall 3 (p + 1) (by omega)]
   simp only
   rw [show p + 1 + 3 = p + 4 by omega, readString_eof (by omega)]
   exact ⟨_, rfl⟩
 
-theorem readSpecs_layout (b : BinArchive) (he : b.endian = .little) :
+theorem readSpecs_layout (b : BinArchive) (he : b.endian = .little) (hsmall : b.size < 2 ^ 64) :
     ∀ (specs : List AssetSpec) (p : Nat) (acc : List AssetSpec), (∀ s ∈ specs, SpecWF s) →
       b.size = p + 4 * (specsCells specs).length + 4 →
       cellsAt b p (specsCells specs ++ [.raw zero4]) →
@@ -176,7 +177,7 @@ theorem readSpecs_layout (b : BinArchive) (he : b.endian = .little) :
     intro p acc _ hs hc
     simp only [specsCells, List.flatMap_nil, List.length_nil, Nat.mul_zero, Nat.add_zero,
       List.nil_append] at hs hc
-    obtain ⟨e, he'⟩ := fromStream_terminator b p hc.1 hs
+    obtain ⟨e, he'⟩ := fromStream_terminator b hsmall p hc.1 hs
     rw [readSpecs]
     split
     · rename_i heq; rw [he'] at heq; simp at heq
@@ -186,7 +187,7 @@ theorem readSpecs_layout (b : BinArchive) (he : b.endian = .little) :
     intro p acc hwf hs hc
     simp only [specsCells, List.flatMap_cons, List.length_append, List.append_assoc] at hs hc
     rw [cellsAt_append] at hc
-    have hread := fromStream_layout s (hwf s (by simp)) b he p hc.1
+    have hread := fromStream_layout s (hwf s (by simp)) b he hsmall p hc.1
     rw [readSpecs]
     split
     · rename_i spec r' heq
@@ -215,12 +216,12 @@ theorem fromArchive_layout (v : AssetBinary) (hwf : BinaryWF v) (b : BinArchive)
     rw [h.size]; simp only [fileCells, List.length_append, List.length_cons, List.length_nil]; omega
   have hc2 := hc.2
   simp only [List.length_cons, List.length_nil] at hc2
-  rw [readSpecs_layout b h.little v.specs 4 [] hwf.2 hs (by simpa using hc2)]
+  rw [readSpecs_layout b h.little h.small v.specs 4 [] hwf.2 hs (by simpa using hc2)]
   simp [normalizeBinary]
 
 theorem Layout.transfer {v : AssetBinary} {a b : BinArchive} (hp : Plain a) (hl : Layout v a)
     (h : SameContent a b) : Layout v b :=
-  ⟨by rw [h.endian]; exact hl.little, by rw [h.size]; exact hl.size,
+  ⟨by rw [h.endian]; exact hl.little, by rw [h.size]; exact hl.size, by rw [h.size]; exact hl.small,
     cellsAt_transfer hp h _ 0 (by decide) hl.cells⟩
 
 end Mila.Asset
